@@ -199,6 +199,8 @@ def run(ctx):
     hv = prog.find_method("HedValidator", "validate")
     wiring.check_wiring(ctx, "R2.2", [{"key": "ValidationErrors.PARENTHESES_MISMATCH", "code": "PARENTHESES_MISMATCH"}], hv,
                         phases={"basic": prog.find_method("HedValidator", "run_basic_checks")})
+    ctx.rule("R2.4", "the parenthesis count check runs for every string (nothing returns before it)")
+    string_checks_always_run(ctx, "R2.4")
     ctx.rule("R2.3", "the printers (str / short / long / original form) visit every child of a group, unfiltered")
     print_all_children(ctx, "R2.3")
 
@@ -230,3 +232,28 @@ def print_all_children(ctx, rule):
                           "%s skips some children when printing (continue in the loop over children)" % p.short,
                           desc="%s prints every child" % p.short)
     ctx.floor(rule, "child iterations in the printers", n, 2)
+
+
+def string_checks_always_run(ctx, rule):
+    """Must-pass-through: in HedValidator._run_hed_string_validators every normal path reaches the call of the string
+    validator, and in StringValidator.run_string_validator every path reaches the parenthesis count and the delimiter
+    scan (an early `return` on earlier issues would hide PARENTHESES_MISMATCH / TAG_EMPTY for that string)."""
+    from sa.dom import view
+    prog = ctx.prog
+    hv = prog.find_class("HedValidator")
+    sv = prog.find_class("StringValidator")
+    plan = [(hv.methods.get("_run_hed_string_validators"), ["run_string_validator", "check_invalid_character_issues"]),
+            (sv.methods.get("run_string_validator"), ["check_count_tag_group_parentheses", "check_delimiter_issues_in_hed_string"])]
+    for f, needs in plan:
+        if f is None:
+            raise AnalysisError("anchor for %s vanished" % rule)
+        ctx.saw(f)
+        v = view(ctx, f)
+        for need in needs:
+            nodes = [n for (n, c) in v.calls(lambda c, need=need: call_name(c) == need)]
+            ok = bool(nodes) and v.every_path_to_exit_passes(v.cfg.entry, nodes)
+            ctx.count_paths()
+            ctx.check(ok, rule, f.qualname, "call of " + need, loc(f, f.node),
+                      "%s can finish without calling %s (an earlier return or branch skips it): for such strings that "
+                      "check's errors (e.g. PARENTHESES_MISMATCH for an unbalanced text that also contains a bad character) "
+                      "are never reported" % (f.short, need), desc="%s always calls %s" % (f.short, need))
